@@ -20,6 +20,8 @@ var ctxRefs = []string{
 	"@trigger", "@trigger.type", "@trigger.params", "@trigger.params.x", "@trigger.params.flag", "@trigger.params.nested.ok", "@trigger.keyword", "@trigger.user", "@trigger.origin",
 	"@resume", "@resume.type", "@resume.dial", "@globals.org_name", "@globals.limit", "@globals.missing", "@globals",
 	"@node.visit_count", "@node.uuid", "@ticket", "@ticket.topic", "@ticket.assignee",
+	// fields and globals whose keys are also function names
+	"@fields.code", "@fields.count", "@(fields.date)", "@fields.title", "@globals.text", "@(contact.fields.code)", "@parent.fields.title",
 	// deprecated context values (each access logs a warning), also twice in a row
 	"@child.run.status", "@results.color.values", "@results.answer.categories", "@results.color.categories_localized",
 	"@child.run.status then @child.run.status", "@results.color.values / @results.color.values", "@results.answer.categories @results.answer.categories",
